@@ -223,6 +223,23 @@ R.contract(
     bounded_note="one query parameter, one prepared header",
 )
 
+R.nominal_methods["spec:WsgiTransportObj"] = {"_get_serializer": _get_serializer}
+WBodyCase = Obj("schemathesis.generation.case:Case", media_type=Choice("application/json", "multipart/form-data", "text/plain"), body=Opq("Body"), method=Str, path=Str, path_parameters=Opq("PathParams"),
+                query=NoneT, operation=Obj("spec:WsgiOp", schema=Obj("spec:WsgiSchema")))
+R.contract(
+    WS + "WSGITransport.serialize_case",
+    variant="with-body",
+    prop="C06",
+    args={"self": Obj("spec:WsgiTransportObj"), "case": WBodyCase, "kwargs": Const({})},
+    ghost={"final_headers": None, "final_headers0": None, "serializer_for": None, "serialized": None, "body_of": None},
+    ensures={
+        # over WSGI the Content-Type is ALWAYS the case's media type (Werkzeug, unlike requests, does not derive a multipart Content-Type by itself)
+        "content_type_is_the_cases_media_type": "result['headers']['Content-Type'] == case.media_type",
+        "body_serialized_by_the_serializer_of_its_media_type": "ghost('serializer_for') == case.media_type and ghost('body_of') is case and result['data'][1] == case.media_type",
+    },
+    bounded_note="prepared headers: an explicit content-type and / or one other header",
+)
+
 # ------------------------------------------------------------------------------------------------- dispatch: which conversions, in which ORDER, for a parameter definition
 def _dispatch(maker, definition):
     """setup: build the composed serializer exactly as the schema does: serialize_<spec>_parameters([definition]) -> composed."""
